@@ -78,6 +78,9 @@ def cells(tier, seed):
     for name in kernel_catalogue(()):
         for pb, xb in pairs:
             out.append({"what": "kernel", "name": name, "pb": list(pb), "xb": list(xb)})
+    for name in ("rbf", "rbf_ard", "matern05", "matern15_ard", "matern25", "rq_ard", "scale_rbf", "pp2", "periodic_ard"):
+        for pb, xb in (((), (2,)), ((2,), (2,)), ((), (2, 3))):
+            out.append({"what": "kernel-far", "name": name, "pb": list(pb), "xb": list(xb)})
     for name in MEANS:
         for pb, xb in pairs:
             out.append({"what": "mean", "name": name, "pb": list(pb), "xb": list(xb)})
@@ -135,7 +138,7 @@ def run_cell(cell, seed):
              "x_more_dims": len(xb) > len(pb), "p_more_dims": len(pb) > len(xb)}
     g = util.gen(seed, "c08|" + util.jdump(cell))
     torch.manual_seed(util.seed_for(seed, "c08init|" + cell["name"]))
-    fn = {"kernel": run_kernel, "mean": run_mean, "likelihood": run_likelihood, "exactgp": run_exact, "svgp": run_svgp, "lists": run_lists}[cell["what"]]
+    fn = {"kernel": run_kernel, "kernel-far": run_kernel_far, "mean": run_mean, "likelihood": run_likelihood, "exactgp": run_exact, "svgp": run_svgp, "lists": run_lists}[cell["what"]]
     ops = fn(cell, pb, xb, g, fails, seed) or 0
     for f in fails:
         f.setdefault("features", feats)
@@ -173,6 +176,34 @@ def run_kernel(cell, pb, xb, g, fails, seed):
                 fails.check_close("kernel", full[b], kb(xe1, xe2).to_dense(), 1e-10, 1e-10, f"element {b}")
                 fails.check_close("kernel-diag", dg[b], kb(xe1, xe1, diag=True), 1e-10, 1e-10, f"element {b}")
     return len(elements(bb)) * 2
+
+
+def run_kernel_far(cell, pb, xb, g, fails, seed):
+    """stationary kernels on batch elements located at very different origins, > 25 rows (torch.cdist's matmul path): element b must
+    not depend on where the other elements sit (e.g. through a numerical-stability centring shared across the batch)"""
+    bb = torch.broadcast_shapes(pb, xb)
+    n1, n2 = 30, 28
+    with fails.guard("kernel-far"):
+        torch.manual_seed(util.seed_for(seed, "c08k"))
+        k = kernel_catalogue(pb)[cell["name"]]()
+        distinct_params_(k, g)
+        off = torch.arange(torch.Size(xb).numel(), dtype=F64).reshape(*xb, 1, 1) * 2.0e6
+        x1 = util.randn(g, *xb, n1, D) + off
+        x2 = util.randn(g, *xb, n2, D) + off
+        with torch.no_grad():
+            full = k(x1, x2).to_dense()
+        for b in elements(bb):
+            torch.manual_seed(util.seed_for(seed, "c08k"))
+            kb = kernel_catalogue(())[cell["name"]]()
+            slice_into(k, kb, pb, bb, b)
+            xe1 = x1.expand(*bb, n1, D)[b]
+            xe2 = x2.expand(*bb, n2, D)[b]
+            with torch.no_grad():
+                # reference: the non-batched replica on the same slice (whatever accuracy the kernel has far from the origin, the
+                # batched evaluation must have it too: nothing about element b may depend on where the other elements sit)
+                want = kb(xe1, xe2).to_dense()
+                fails.check_close("kernel-far", full[b], want, 1e-7, 1e-7, f"element {b} (batch elements 2e6 apart)")
+    return len(elements(bb))
 
 
 def run_mean(cell, pb, xb, g, fails, seed):
@@ -368,4 +399,20 @@ def run_lists(cell, pb, xb, g, fails, seed):
         val = mll(ml(*ml.train_inputs), ml.train_targets)
         parts = [gpytorch.mlls.ExactMarginalLogLikelihood(m.likelihood, m)(m(*m.train_inputs), m.train_targets) for m in ms]
         fails.check_close("sum-mll", val, sum(parts) / len(parts), 1e-12, 1e-12, "SumMarginalLogLikelihood != mean of the members' MLLs")
-    return 7
+    # pass-through arguments: every member must receive ITS OWN entry (fixed-noise members of different sizes make the routing visible)
+    with fails.guard("sum-mll-params"):
+        fs = []
+        for i in range(3):
+            X, y = util.rand(g, 3 + 2 * i, D), util.randn(g, 3 + 2 * i)
+            m = models.ExactModel(X, y, "fixednoise_learn" if i else "fixednoise", seed, noise=0.05 + util.rand(g, 3 + 2 * i))
+            distinct_params_(m, g)
+            fs.append(m)
+        fl = gpytorch.models.IndependentModelList(*fs)
+        fll = gpytorch.likelihoods.LikelihoodList(*[m.likelihood for m in fs])
+        fl.train()
+        smll = gpytorch.mlls.SumMarginalLogLikelihood(fll, fl)
+        val = smll(fl(*fl.train_inputs), fl.train_targets, *fl.train_inputs)
+        parts = [gpytorch.mlls.ExactMarginalLogLikelihood(m.likelihood, m)(m(*m.train_inputs), m.train_targets, *m.train_inputs) for m in fs]
+        fails.check_close("sum-mll-params", val, sum(parts) / len(parts), 1e-12, 1e-12,
+                          "SumMarginalLogLikelihood(outputs, targets, *train_inputs) != mean of the members' MLLs called with their own inputs")
+    return 9
